@@ -450,6 +450,30 @@ def rule_takeover(ctx, rule):
     ctx.floor(rule, "lock_classes", n_cls, 2, exact=True)
 
 
+def rule_append_starts_on_record_boundary(ctx, rule):
+    """A writer that died in the middle of a write leaves a record without its newline.  The next append (lock held,
+    so nobody else is writing) must not start its own record right behind those bytes: before the write, append_logs
+    has to look at the end of the file (read the last byte / compare sizes) and terminate or remove the torn tail."""
+    p = ctx.program
+    f = p.func(BACKEND + ".append_logs")
+    g = CFG(f.node, name=f.qualname)
+    W = [n for n in g.stmt_nodes() for c in n.calls() if isinstance(c.func, ast.Attribute) and c.func.attr in ("write", "writelines")]
+    ctx.require(W, f"{rule}: append_logs no longer writes")
+    looks = []
+    for n in g.stmt_nodes():
+        for c in n.calls():
+            d = dotted(c.func) or ""
+            if (isinstance(c.func, ast.Attribute) and c.func.attr in ("read", "readline", "readlines", "seek", "tell", "truncate", "peek")) \
+                    or d in ("os.truncate", "os.ftruncate", "os.pread", "os.lseek") or (_is_call_to(c, "open") and _open_mode(c) in ("rb", "r", "r+b", "rb+")):
+                looks.append(n)
+    ok = bool(looks) and all(g.dominated_by(w, looks) for w in W)
+    ctx.check(ok, rule, f.short, "append-inspects-the-tail",
+              message="JournalFileBackend.append_logs writes its records without ever looking at the end of the file: after a writer died in the middle of a record "
+                      "(torn last line, no newline) the next append is glued onto the torn bytes - that call returns normally but its record can never be decoded, and once one "
+                      "more record follows every reader, the writer included, raises JSONDecodeError for ever",
+              how="a read / seek / truncate of the journal dominates the write inside the lock region", where=where(f, W[0].ast))
+
+
 def rule_append_ordering(ctx, rule):
     """append_logs: write -> flush -> fsync in order before leaving the `with open` block; one
     write call per append, not in a loop."""
